@@ -7,6 +7,8 @@ from props.regcommon import TYPES, SIZE, BITS, checks, hexv, pat, BOUNDS, defaul
 ID = "C05"
 DRIVER = "drv_regtable"
 HARNESS = "h_regtable"
+QUICK_LEVEL = "thorough"      # the larger case set costs only seconds
+THOROUGH_SEEDS = 8
 GEN = [constants.gen]
 TIE = ['Ufw.Tie.RegTable']
 RULE = ("operation sequences (typed set, unchecked set excluded, bit set, bit clear, block write, sanitise, interleaved with reads of every "
